@@ -121,3 +121,686 @@ def regen(ctx):
     if not p.exists() or p.read_text() != txt:
         p.parent.mkdir(exist_ok=True)
         p.write_text(txt)
+
+
+# ----------------------------------------------------------------------------------------------
+# cases
+from . import c01_lib as L  # noqa: E402
+
+PPCI_TYPES = ["char", "uchar", "short", "ushort", "int", "uint", "long", "ulong", "llong", "ullong"]
+
+
+def V(t, i):
+    return ("V", t, i)
+
+
+def lit(v, suf="n", base="d"):
+    return ("L", base, suf, v)
+
+
+def B(op, a, b):
+    return ("B", op, a, b)
+
+
+def U(op, a):
+    return ("U", op, a)
+
+
+def K(t, a):
+    return ("K", t, a)
+
+
+def Q(c, a, b):
+    return ("Q", c, a, b)
+
+
+# (tree, [argument vectors]): past defects and boundary cases, always run first
+CORPUS = [
+    # the defects repaired by 21f7d05 (typing)
+    (B("lt", V("schar", 0), V("uchar", 1)), [[-1, 1], [1, 1], [-128, 255]]),
+    (B("shr", V("int", 0), V("uint", 1)), [[-8, 1], [-1, 31], [2147483647, 3]]),
+    (B("lt", V("llong", 0), V("ulong", 1)), [[-1, 1], [1, 2], [-9223372036854775808, 0]]),
+    (U("neg", V("uchar", 0)), [[1], [255], [0]]),
+    (U("bnot", V("ushort", 0)), [[0], [65535]]),
+    (U("bnot", V("uchar", 0)), [[0], [255]]),
+    (U("neg", V("schar", 0)), [[-128], [127]]),
+    (B("shl", V("uchar", 0), V("long", 1)), [[255, 23], [1, 30]]),
+    (B("eq", V("ushort", 0), V("short", 1)), [[65535, -1], [1, 1]]),
+    (Q(V("long", 0), lit(1), lit(2)), [[4294967296], [0], [1]]),
+    (Q(V("int", 0), V("schar", 1), V("uchar", 2)), [[1, -1, 200], [0, -1, 200]]),
+    (B("add", lit(2147483648), lit(1)), [[]]),
+    (B("add", ("C", 200), lit(1)), [[]]),
+    (B("gt", B("sub", ("Z", "int", 4), lit(5)), lit(0)), [[]]),      # sizeof is unsigned: 1
+    (B("div", U("neg", lit(1)), ("Z", "char", 1)), [[]]),
+    # arithmetic conversions / truncating division / shifts / casts
+    (B("div", V("int", 0), V("int", 1)), [[-7, 2], [7, -2], [-2147483648, 1], [2147483647, -1]]),
+    (B("mod", V("int", 0), V("int", 1)), [[-7, 2], [7, -2], [-7, -2], [-2147483647, -1]]),
+    (B("div", V("uint", 0), V("int", 1)), [[4294967295, -1], [7, 2]]),
+    (B("mod", V("long", 0), V("uchar", 1)), [[-9223372036854775807, 255], [-1, 2]]),
+    (B("shr", V("llong", 0), V("schar", 1)), [[-9223372036854775808, 63], [-1, 0]]),
+    (B("shr", V("ullong", 0), V("int", 1)), [[18446744073709551615, 63], [18446744073709551615, 1]]),
+    (B("shl", V("uint", 0), V("ullong", 1)), [[4294967295, 31], [1, 0]]),
+    (B("mul", V("ushort", 0), V("ushort", 1)), [[255, 255], [46340, 46340]]),
+    (B("add", V("uint", 0), V("long", 1)), [[4294967295, 1], [0, -1]]),
+    (B("sub", V("uint", 0), V("int", 1)), [[0, 1], [5, -5]]),
+    (B("band", V("schar", 0), V("ushort", 1)), [[-1, 65535], [-128, 255]]),
+    (B("bxor", V("long", 0), V("uint", 1)), [[-1, 4294967295]]),
+    (K("schar", V("int", 0)), [[200], [-129], [127]]),
+    (K("uchar", V("llong", 0)), [[-1], [256]]),
+    (K("ushort", K("schar", V("int", 0))), [[-1], [128]]),
+    (K("ulong", V("schar", 0)), [[-1], [5]]),
+    (K("int", V("ullong", 0)), [[18446744073709551615], [2147483648]]),
+    (B("land", V("char", 0), B("div", lit(1), V("int", 1))), [[0, 0], [1, 1], [1, 2]]),
+    (B("lor", V("ulong", 0), B("mod", lit(1), V("int", 1))), [[1, 0], [0, 1], [0, 7]]),
+    (U("lnot", V("ullong", 0)), [[0], [4294967296]]),
+    (U("lnot", B("lt", V("int", 0), V("uint", 1))), [[-1, 1], [0, 1]]),
+    (Q(B("land", V("char", 0), V("long", 1)), U("neg", V("ushort", 2)), lit(4294967296)), [[1, 1, 3], [0, 1, 3], [1, 0, 3]]),
+    (B("add", U("plus", V("char", 0)), U("plus", V("ushort", 1))), [[-1, 65535]]),
+    (B("lt", lit(0xffffffff, "n", "x"), lit(0)), [[]]),
+    (B("lt", U("neg", lit(1)), lit(0, "u")), [[]]),
+    (B("shl", lit(1), lit(31, "u")), [[]]),
+]
+
+
+def single_operator_cases():
+    """(label, tree, params) for every operator x type (x type)"""
+    out = []
+    for op in L.ARITH + L.SHIFT + L.CMP + L.LOGIC:
+        for a in PPCI_TYPES:
+            for b in PPCI_TYPES:
+                out.append((f"bin:{op}:{a}:{b}", B(op, V(a, 0), V(b, 1)), [a, b]))
+    for op in L.UNOPS:
+        for a in L.TYPES:
+            out.append((f"un:{op}:{a}", U(op, V(a, 0)), [a]))
+    for t in L.TYPES:
+        for a in L.TYPES:
+            out.append((f"cast:{t}:{a}", K(t, V(a, 0)), [a]))
+    for a in PPCI_TYPES:
+        for b in PPCI_TYPES:
+            out.append((f"cond:{a}:{b}", Q(V("int", 2), V(a, 0), V(b, 1)), [a, b, "int"]))
+    for c in L.TYPES:
+        out.append((f"condc:{c}", Q(V(c, 0), lit(1), lit(2)), [c]))
+    return out
+
+
+def type_class(t):
+    if t in ("char", "schar", "short"):
+        return "promotable-signed"
+    if t in ("uchar", "ushort"):
+        return "promotable-unsigned"
+    return t
+
+
+def op_class(e):
+    k = e[0]
+    if k == "B":
+        op = e[1]
+        return "arith" if op in L.ARITH else "shift" if op in L.SHIFT else "cmp" if op in L.CMP else "logic"
+    if k == "U":
+        return e[1]
+    return {"Q": "cond", "K": "cast", "V": "var", "L": "literal", "C": "charconst", "Z": "sizeof"}[k]
+
+
+def root_types_text(e, types_of):
+    return ":".join(type_class(types_of.get(id(x), "?")) for x in e[1:] if isinstance(x, tuple))
+
+
+def pair_vectors(params, rng, n_extra):
+    """argument vectors for a single-operator case: boundary x boundary (sampled) + random"""
+    bs = [L.boundary_values(t) for t in params]
+    out = []
+    if len(params) == 1:
+        out = [[v] for v in bs[0]]
+    else:
+        key = [[bs[i][0], bs[i][-1], 0 if 0 in bs[i] else bs[i][0], 1, bs[i][len(bs[i]) // 2]] for i in range(len(params))]
+        for x in key[0]:
+            for y in key[1]:
+                out.append([x, y] + [1] * (len(params) - 2))
+        if len(params) == 3:
+            out += [[key[0][0], key[1][1], 0], [key[0][1], key[1][0], 0]]
+    out += L.gen_args(rng, params, n_extra)
+    return out
+
+
+# ----------------------------------------------------------------------------------------------
+def check(ctx):
+    rng = ctx.rng
+    thorough = ctx.thorough
+    cases = []          # dict(label, tree, params, argvs, kind)
+
+    def add(label, tree, params, argvs, kind):
+        cases.append({"label": label, "tree": tree, "params": params, "argvs": argvs, "kind": kind})
+
+    for i, (tree, argvs) in enumerate(CORPUS):
+        vs = L.variables(tree)
+        params = [vs.get(j, "int") for j in range(max(vs) + 1)] if vs else []
+        add(f"corpus{i}", tree, params, argvs, "corpus")
+    singles = single_operator_cases()
+    for label, tree, params in singles:
+        n = 6 if thorough else 2
+        argvs = pair_vectors(params, rng, n)
+        if not thorough and not label.startswith("bin:"):
+            argvs = argvs[:12]
+        if not thorough and label.startswith("bin:"):
+            argvs = rng.sample(argvs, min(len(argvs), 9))
+        add(label, tree, params, argvs, "single")
+    n_random = 2500 if thorough else 260
+    for i in range(n_random):
+        np_ = rng.randint(1, 6)
+        params = [rng.choice(L.TYPES) for _ in range(np_)]
+        depth = rng.choice([2, 3, 3, 4, 4, 5] if thorough else [2, 3, 3, 4])
+        tree = L.gen_expr(rng, depth, params)
+        if L.size(tree) > 60:
+            continue
+        add(f"rand{i}", tree, params, L.gen_args(rng, params, 14 if thorough else 8), "random")
+
+    # ---- the real front-end (process pool) ------------------------------------------------------
+    per_unit = 45
+    jobs, index = [], []
+    spec_ir_units = set()
+    for k in range(0, len(cases), per_unit):
+        chunk = cases[k:k + per_unit]
+        src = "\n".join(L.func_text(f"f{k + j}", "llong", c["params"], c["tree"]) for j, c in enumerate(chunk)) + "\n"
+        funcs = [(f"f{k + j}", c["argvs"]) for j, c in enumerate(chunk)]
+        # Spec.IR itself executes: the corpus unit, and a sample of the others
+        sir = k == 0 or rng.random() < (0.5 if thorough else 0.12)
+        jobs.append({"src": src, "funcs": funcs, "spec_ir": sir, "native": thorough and rng.random() < 0.5})
+        index.append((k, len(chunk)))
+    results = L.run_units(jobs)
+
+    # a unit that does not compile is split so that the offending function is alone
+    def flatten(jobs, results):
+        per_case = {}
+        retry = []
+        for job, res in zip(jobs, results):
+            if res["status"] == "ok":
+                for name, _ in job["funcs"]:
+                    per_case[int(name[1:])] = (res["funcs"][name], res, job)
+            elif len(job["funcs"]) == 1:
+                per_case[int(job["funcs"][0][0][1:])] = ({"error": res["status"], "msg": res["msg"]}, res, job)
+            else:
+                lines = job["src"].splitlines()
+                h = len(lines) // 2
+                for part in ((lines[:h], job["funcs"][:h]), (lines[h:], job["funcs"][h:])):
+                    retry.append({"src": "\n".join(part[0]) + "\n", "funcs": part[1], "spec_ir": False, "native": False})
+        return per_case, retry
+    per_case, retry = flatten(jobs, results)
+    rounds = 0
+    while retry and rounds < 8:
+        rr = L.run_units(retry)
+        pc, retry2 = flatten(retry, rr)
+        per_case.update(pc)
+        retry = retry2
+        rounds += 1
+
+    # ---- the model and the specification (one driver run) -----------------------------------------
+    reqs = []
+    slots = []
+    for i, c in enumerate(cases):
+        p = L.proto(c["tree"])
+        base = len(reqs)
+        reqs += [f"stype {p}", f"relab {p}", f"rtree {p}" if L.nconds(c["tree"]) <= 10 else f"stype {p}"]
+        for args in c["argvs"]:
+            env = "[" + ",".join(str(a) for a in args) + "]"
+            reqs += [f"seval {env} {p}", f"rieval {env} {p}"]
+        slots.append(base)
+    replies = ctx.driver("C01", reqs)
+
+    failing_values = []
+    for i, c in enumerate(cases):
+        base = slots[i]
+        stype = replies[base][3:]
+        m_ast = replies[base + 1][3:]
+        m_tree = replies[base + 2][3:] if L.nconds(c["tree"]) <= 10 else None
+        obs, res, job = per_case.get(i, ({"error": "lost"}, None, None))
+        ctx.count("eval_" + c["kind"])
+        label = c["label"]
+        text = L.render_c(c["tree"])
+        if "error" in obs:
+            # the model elaborates every typed expression; the real front-end must compile it
+            ctx.count("compile_" + obs["error"])
+            if stype != "none":
+                ctx.disagree("compile", {"label": label, "c": text}, obs["error"] + ": " + obs.get("msg", ""), m_ast)
+                ctx.fail(f"ccompile:{op_class(c['tree'])}:{obs['error']}",
+                         f"`{text}` has type {stype} in C but the front-end raised {obs['error']}: {obs.get('msg', '')}",
+                         {"label": label, "c": text, "params": c["params"]})
+            continue
+        ctx.count("programs")
+        # --- correspondence: typed AST and emitted code
+        if obs["ast"] != m_ast:
+            ctx.disagree("typed-ast", {"label": label, "c": text}, obs["ast"], m_ast)
+        if m_tree is not None and obs["tree"] is not None:
+            ctx.count("eval_tree")
+            if obs["tree"] != m_tree:
+                ctx.disagree("ir-decision-tree", {"label": label, "c": text}, obs["tree"], m_tree)
+        # --- the property: typing.  The type ppci gives the expression is read off the real AST
+        real_ty = ast_type(obs["ast"])
+        want = L.MODEL_OF_SPEC.get(stype, stype)
+        if real_ty != want:
+            ctx.fail(f"ctype:{op_class(c['tree'])}:{':'.join(type_class(t) for t in root_operand_types(c['tree'], replies, reqs))}",
+                     f"`{text}` with {decl_text(c)} has type {stype} in C, ppci gives it {real_ty}",
+                     {"label": label, "c": text, "params": c["params"]}, impl=obs["ast"], spec=stype)
+        elif c["kind"] == "single":
+            ctx.nontrivial(label) if ("icast" in obs["ast"]) else None
+        # --- the property: values
+        vals = obs.get("vals") or []
+        nat = obs.get("native")
+        for j, args in enumerate(c["argvs"]):
+            sv = replies[base + 3 + 2 * j][3:]
+            mv = replies[base + 4 + 2 * j][3:]
+            if sv == "none":
+                ctx.count("skipped_undefined")
+                continue
+            ctx.count("eval_value")
+            want_v = L.wrap("llong", int(sv))
+            got = vals[j] if j < len(vals) else "missing"
+            if mv != str(want_v):
+                # the theorem says this cannot happen (except through sizeof): the model's code computes C's value
+                ctx.disagree("model-value-vs-spec", {"label": label, "c": text, "args": args}, mv, str(want_v))
+            if got != want_v:
+                failing_values.append((i, j, got, want_v))
+            elif want_v != wrap_naive(c, args):
+                ctx.nontrivial((label if c["kind"] != "random" else text, tuple(args)))
+            if nat is not None and j < len(nat):
+                ctx.count("eval_native")
+                if nat[j] != want_v:
+                    ctx.count("native_differs")
+                    ctx.note(f"native x86-64 run differs (backend, C04/C05): {text} args={args}: {nat[j]} vs {want_v}") \
+                        if ctx.counts["native_differs"] <= 5 else None
+        if c["kind"] in ("corpus", "random") and len(ctx.samples) < 6 and i % 37 == 0:
+            ctx.sample({"c": text, "params": c["params"], "typed_ast": obs["ast"][:300], "spec_type": stype,
+                        "args": c["argvs"][:2], "values": vals[:2]})
+
+    # ---- Spec.IR executes the real modules (subset) -----------------------------------------------
+    ir_lines, ir_index = [], []
+    for job, res in zip(jobs, results):
+        if res["status"] == "ok" and res.get("irtext"):
+            ir_lines += ["config ptr 8", "load " + res["irtext"], "wf"]
+            for name, argvs in job["funcs"]:
+                ci = int(name[1:])
+                for j, args in enumerate(argvs[: (6 if thorough else 3)]):
+                    ir_index.append((len(ir_lines), ci, j))
+                    ir_lines.append(f"run {name} 100000 " + " ".join(str(a) for a in args))
+    if ir_lines:
+        ir_rep = ctx.driver("IR", ir_lines)
+        for pos, ci, j in ir_index:
+            c = cases[ci]
+            sv = replies[slots[ci] + 3 + 2 * j][3:]
+            if sv == "none":
+                continue
+            ctx.count("eval_specir")
+            r = ir_rep[pos]
+            got = L.parse_ret(r[3:]) if r.startswith("ok ret=") else r
+            want_v = L.wrap("llong", int(sv))
+            if got != want_v:
+                ctx.fail(f"cvalue:specir:{op_class(c['tree'])}",
+                         f"Spec.IR run of the emitted function for `{L.render_c(c['tree'])}` args={c['argvs'][j]} gives {got}, C gives {want_v}",
+                         {"label": c["label"], "c": L.render_c(c["tree"]), "params": c["params"], "args": c["argvs"][j]})
+    # ---- value failures (ir_to_python executed the real IR): shrink to the smallest failing subtree ----
+    report_value_failures(ctx, cases, failing_values)
+
+    check_tables(ctx)
+    check_layout(ctx)
+    if thorough:
+        validate_spec_with_gcc(ctx, cases, replies, slots)
+    ctx.extra_cov["exhaustive"] = True
+    ctx.extra_cov["exhaustive_domain"] = (f"{len(singles)} single-operator programs: 18 binary operators x 10 x 10 BasicTypes, 4 unary x 11, "
+                                          "casts 11 x 11, ?: 10 x 10 branch types + 11 condition types (typing and emitted code); "
+                                          "operand VALUES are sampled")
+
+
+def wrap_naive(c, args):
+    """value of the expression computed with unbounded Python integers and no conversions (only for the
+    'non-trivial' statistic: a case is non-trivial when C's value differs from this)"""
+    def ev(e):
+        k = e[0]
+        if k == "V":
+            return args[e[2]]
+        if k == "L":
+            return e[3]
+        if k == "C":
+            return e[1]
+        if k == "Z":
+            return e[2]
+        if k == "K":
+            return ev(e[2])
+        if k == "U":
+            x = ev(e[2])
+            return {"neg": -x, "bnot": ~x, "lnot": int(x == 0), "plus": x}[e[1]]
+        if k == "Q":
+            return ev(e[2]) if ev(e[1]) else ev(e[3])
+        a, b = ev(e[2]), ev(e[3])
+        op = e[1]
+        try:
+            return {"add": lambda: a + b, "sub": lambda: a - b, "mul": lambda: a * b, "div": lambda: a // b,
+                    "mod": lambda: a % b, "shl": lambda: a << b, "shr": lambda: a >> b, "band": lambda: a & b,
+                    "bor": lambda: a | b, "bxor": lambda: a ^ b, "lt": lambda: int(a < b), "gt": lambda: int(a > b),
+                    "le": lambda: int(a <= b), "ge": lambda: int(a >= b), "eq": lambda: int(a == b),
+                    "ne": lambda: int(a != b), "land": lambda: int(bool(a) and bool(b)),
+                    "lor": lambda: int(bool(a) or bool(b))}[op]()
+        except Exception:  # noqa
+            return None
+    try:
+        return ev(c["tree"])
+    except Exception:  # noqa
+        return None
+
+
+def ast_type(s):
+    """type tag at the root of a canonical typed-AST string, looking through the implicit cast `on_return` adds"""
+    w = s.replace("(", " ").split()
+    if w and w[0] == "icast" and len(w) > 1 and w[1] == "llong":
+        inner = s[len("(icast llong "):-1]
+        return type_tag(inner)
+    return type_tag(s)
+
+
+def type_tag(s):
+    w = s.replace("(", " ").replace(")", " ").split()
+    if not w:
+        return "?"
+    if w[0] in ("un", "bin"):
+        return w[2]
+    return w[1] if len(w) > 1 else "?"
+
+
+def decl_text(c):
+    return ", ".join(f"{L.CNAME[t]} v{i}" for i, t in enumerate(c["params"])) or "no variables"
+
+
+_type_cache = {}
+
+
+def root_operand_types(tree, replies=None, reqs=None):
+    """C types of the operands of the root operator (for the failure signature): variables give their type,
+    anything else is reported as 'expr'"""
+    out = []
+    for x in tree[1:]:
+        if isinstance(x, tuple):
+            out.append(x[1] if x[0] == "V" else "expr")
+    return out or ["leaf"]
+
+
+def subtrees_postorder(e):
+    for x in e[1:]:
+        if isinstance(x, tuple):
+            yield from subtrees_postorder(x)
+    yield e
+
+
+def evaluate_trees(ctx, trees, params, argvs, spec_ir=False):
+    """compile each tree as its own function with the REAL front-end, run it, and ask the driver for C's type/value.
+    -> [{"tree", "c", "real_ty", "ast", "stype", "rows": [(args, got, want|None)], "error"}], irtext"""
+    src = "\n".join(L.func_text(f"f{k}", "llong", params, t) for k, t in enumerate(trees)) + "\n"
+    job = {"src": src, "funcs": [(f"f{k}", argvs) for k in range(len(trees))], "spec_ir": spec_ir, "native": False}
+    res = L.run_unit(job)
+    reqs = []
+    for t in trees:
+        p = L.proto(t)
+        reqs.append(f"stype {p}")
+        for args in argvs:
+            reqs.append("seval [" + ",".join(str(a) for a in args) + f"] {p}")
+    rep = ctx.driver("C01", reqs)
+    out = []
+    n = 1 + len(argvs)
+    for k, t in enumerate(trees):
+        row = {"tree": t, "c": L.render_c(t), "stype": rep[k * n][3:], "rows": [], "error": None, "name": f"f{k}"}
+        if res["status"] != "ok":
+            row["error"] = res["status"] + ": " + res["msg"]
+            out.append(row)
+            continue
+        obs = res["funcs"][f"f{k}"]
+        row["ast"] = obs.get("ast", "")
+        row["real_ty"] = ast_type(row["ast"])
+        vals = obs.get("vals") or []
+        for j, args in enumerate(argvs):
+            sv = rep[k * n + 1 + j][3:]
+            want = None if sv == "none" else L.wrap("llong", int(sv))
+            row["rows"].append((args, vals[j] if j < len(vals) else "missing", want))
+        out.append(row)
+    return out, res.get("irtext")
+
+
+def smallest_failing(ctx, case, argvs):
+    """the smallest subtree of the case whose typing or value (on one of argvs) is wrong on the real code"""
+    seen, trees = set(), []
+    for t in subtrees_postorder(case["tree"]):
+        if t not in seen:
+            seen.add(t)
+            trees.append(t)
+    trees.sort(key=L.size)
+    rows, _ = evaluate_trees(ctx, trees, case["params"], argvs)
+    if any(r["error"] for r in rows):
+        # a subtree alone may not compile together with the others: evaluate one by one
+        rows = []
+        for t in trees:
+            rows += evaluate_trees(ctx, [t], case["params"], argvs)[0]
+    for r in rows:
+        if r["error"]:
+            continue
+        if r["real_ty"] != L.MODEL_OF_SPEC.get(r["stype"], r["stype"]) and r["stype"] != "none":
+            return r, "type"
+        for args, got, want in r["rows"]:
+            if want is not None and got != want:
+                return r, ("value", args, got, want)
+    return None, None
+
+
+def child_types(ctx, tree):
+    kids = [x for x in tree[1:] if isinstance(x, tuple)]
+    if not kids:
+        return ["leaf"]
+    rep = ctx.driver("C01", [f"stype {L.proto(k)}" for k in kids])
+    return [type_class(r[3:]) for r in rep]
+
+
+def report_value_failures(ctx, cases, failing_values, limit=6):
+    by_case = {}
+    for i, j, got, want in failing_values:
+        by_case.setdefault(i, []).append((j, got, want))
+    for n, (i, rows) in enumerate(sorted(by_case.items())):
+        c = cases[i]
+        text = L.render_c(c["tree"])
+        j, got, want = rows[0]
+        if n >= limit:
+            ctx.fail(f"cvalue:{op_class(c['tree'])}:unshrunk", f"`{text}` args={c['argvs'][j]}: emitted IR computes {got}, C gives {want}",
+                     {"label": c["label"], "c": text, "params": c["params"], "args": c["argvs"][j]})
+            continue
+        argvs = [c["argvs"][jj] for jj, _, _ in rows[:4]]
+        r, what = smallest_failing(ctx, c, argvs)
+        if r is None:
+            ctx.fail(f"cvalue:{op_class(c['tree'])}:whole", f"`{text}` args={c['argvs'][j]}: emitted IR computes {got}, C gives {want} "
+                     "(no proper subtree fails alone)", {"label": c["label"], "c": text, "params": c["params"], "args": c["argvs"][j]})
+            continue
+        sub = r["tree"]
+        kinds = ":".join(child_types(ctx, sub))
+        if what == "type":
+            ctx.fail(f"ctype:{op_class(sub)}:{kinds}",
+                     f"`{r['c']}` with {decl_text(c)} has type {r['stype']} in C, ppci gives it {r['real_ty']} "
+                     f"(found through a wrong value of `{text}`)",
+                     {"label": c["label"], "c": r["c"], "params": c["params"]}, impl=r["ast"], spec=r["stype"])
+        else:
+            _, args, g, w = what
+            # is it the executor? run the same function by the Spec.IR reference interpreter
+            rows2, irtext = evaluate_trees(ctx, [sub], c["params"], [args], spec_ir=True)
+            verdict = ""
+            if irtext:
+                rep = ctx.driver("IR", ["config ptr 8", "load " + irtext, "wf",
+                                        "run f0 100000 " + " ".join(str(a) for a in args)])
+                sv = L.parse_ret(rep[3][3:]) if rep[3].startswith("ok ret=") else rep[3]
+                if sv == w:
+                    ctx.note(f"ir_to_python computes {g} for `{r['c']}` args={args} but Spec.IR computes C's value {w}: "
+                             "executor (C24) difference, not a front-end defect")
+                    continue
+                verdict = f"; Spec.IR run: {sv}"
+            ctx.fail(f"cvalue:{op_class(sub)}:{kinds}",
+                     f"`{r['c']}` with {decl_text(c)} args={args}: emitted IR computes {g}, C gives {w}{verdict}",
+                     {"label": c["label"], "c": r["c"], "params": c["params"], "args": args}, impl=g, spec=w)
+
+
+# ----------------------------------------------------------------------------------------------
+def check_tables(ctx):
+    """the property on the live type tables of every target: the IR type of an integer C type has its width and signedness;
+    `sizeof` has an unsigned type as wide as `size_t_type`"""
+    from ppci.lang.c.nodes.types import BasicType
+    irinfo = {"i8": (8, True), "i16": (16, True), "i32": (32, True), "i64": (64, True),
+              "u8": (8, False), "u16": (16, False), "u32": (32, False), "u64": (64, False)}
+    for name, st, types, ps, pa, szof, szt in arch_rows():
+        if st != "ok":
+            ctx.count("arch_unbuildable")
+            continue
+        sizes = {}
+        for tid, size, align, irty in types:
+            sizes[tid] = size
+            if tid not in INT_IDS:
+                continue
+            ctx.count("eval_irtype")
+            bits, sg = irinfo.get(irty, (None, None))
+            want_signed = tid in BasicType.SIGNED_INTEGER_TYPES
+            if bits != 8 * size or sg != want_signed:
+                ctx.fail(f"cirtype:{name}:{tid}",
+                         f"on {name} the C type `{tid}` ({size} bytes, {'signed' if want_signed else 'unsigned'}) is lowered to IR type {irty}",
+                         {"arch": name, "type": tid}, impl=irty)
+        ctx.count("eval_sizeof_type")
+        if szof in BasicType.SIGNED_INTEGER_TYPES or sizes.get(szof) != sizes.get(szt):
+            ctx.fail("ctype:sizeof:signed", f"on {name} a sizeof expression has type `{szof}` (size_t is an unsigned type, 6.5.3.4p5)",
+                     {"arch": name}, impl=szof)
+
+
+# ----------------------------------------------------------------------------------------------
+LAYOUT_CORPUS = [
+    ("S", [("P", "int"), ("P", "char")]),                                  # size 8 (was 5)
+    ("S", [("P", "char"), ("P", "int")]),
+    ("S", [("P", "char"), ("P", "double"), ("P", "char")]),               # 24
+    ("N", [("A", 5, ("P", "char")), ("P", "int")]),                        # union: 8 (was 5)
+    ("S", [("P", "char"), ("S", [("P", "int"), ("P", "char")]), ("P", "char")]),      # nested struct aligned by ITS alignment
+    ("S", [("P", "short"), ("A", 3, ("S", [("P", "char"), ("P", "short")])), ("P", "char")]),
+    ("S", [("A", 3, ("P", "char")), ("P", "short")]),
+    ("S", [("P", "ptr"), ("P", "char")]),
+    ("S", [("N", [("P", "char"), ("P", "long")]), ("P", "short")]),
+    ("S", [("P", "char")]),
+    ("N", [("P", "short"), ("A", 3, ("P", "char"))]),                      # union 4
+    ("S", [("P", "llong"), ("P", "float"), ("P", "ushort"), ("P", "uchar")]),
+    ("A", 3, ("S", [("P", "int"), ("P", "char")])),                        # array of padded structs: 24
+    ("S", [("S", [("P", "char")]), ("S", [("P", "short")]), ("S", [("P", "int")]), ("S", [("P", "long")])]),
+]
+
+
+def check_layout(ctx):
+    rng = ctx.rng
+    types = list(LAYOUT_CORPUS)
+    for _ in range(1500 if ctx.thorough else 220):
+        types.append(L.gen_lty(rng, rng.choice([1, 2, 2, 3])))
+    per = 60
+    jobs = []
+    for k in range(0, len(types), per):
+        src, _ = L.layout_source(types[k:k + per])
+        jobs.append({"src": src, "n": len(types[k:k + per])})
+    import multiprocessing
+    workers = max(1, min(int(os.environ.get("C01_WORKERS", "4")), len(jobs)))
+    with multiprocessing.get_context("fork").Pool(workers) as pool:
+        results = pool.map(L.run_layout_unit, jobs, chunksize=1)
+    reqs = []
+    for t in types:
+        p = L.lty_proto(t)
+        reqs += [f"mlayout {p}", f"slayout {p}"]
+    rep = ctx.driver("C01", reqs)
+    gcc_rows = None
+    if ctx.thorough:
+        gcc_rows, err = L.gcc_layout(types)
+        if gcc_rows is None:
+            raise common.BrokenCheck("gcc failed on the layout program: " + err)
+    for i, t in enumerate(types):
+        res = results[i // per]
+        ctx.count("eval_layout")
+        case = {"type": L.lty_proto(t), "c": L.layout_source([t])[0]}
+        if res["status"] != "ok":
+            ctx.fail("clayout:compile:" + res["status"], f"declarations do not compile: {res['msg']}", case)
+            continue
+        row = res["rows"][i % per]
+        if "error" in row:
+            ctx.fail("clayout:raises", f"CContext raised {row['error']}", case)
+            continue
+        impl = f"{row['size']} {row['align']} [{','.join(str(o) for o in row['offsets'])}]"
+        model = rep[2 * i][3:]
+        spec = rep[2 * i + 1][3:]
+        if impl != model:
+            ctx.disagree("layout", case, impl, model)
+        s_size, s_align, s_offs = spec.split(" ", 2)
+        kind = {"S": "struct", "N": "union", "A": "array", "P": "scalar"}[t[0]]
+        if str(row["align"]) != s_align:
+            ctx.fail(f"clayout:align:{kind}", f"alignment {row['align']}, System V gives {s_align}", case, impl=impl, spec=spec)
+        if f"[{','.join(str(o) for o in row['offsets'])}]" != s_offs:
+            ctx.fail(f"clayout:offset:{kind}", f"member offsets {row['offsets']}, System V gives {s_offs}", case, impl=impl, spec=spec)
+        if str(row["size"]) != s_size:
+            ctx.fail(f"clayout:size:{kind}", f"sizeof = {row['size']}, System V gives {s_size} (size is a multiple of the alignment)",
+                     case, impl=impl, spec=spec)
+        else:
+            if t[0] in "SN" and int(s_size) != sum_sizes(t):
+                ctx.nontrivial(("layout", L.lty_proto(t)))
+        # what reaches the IR: the global object's size and alignment, and the sizeof constant
+        if row["var_amount"] is not None and (str(row["var_amount"]) != s_size or str(row["var_align"]) != s_align):
+            ctx.fail(f"clayout:irvar:{kind}", f"ir.Variable has amount {row['var_amount']} alignment {row['var_align']}, "
+                     f"System V gives {s_size}/{s_align}", case)
+        if row["sizeof_const"] is not None and str(row["sizeof_const"]) != s_size:
+            ctx.fail(f"clayout:sizeof-const:{kind}", f"sizeof(g) is lowered to the constant {row['sizeof_const']}, System V gives {s_size}", case)
+        if gcc_rows is not None:
+            g = gcc_rows[i]
+            gs = f"{g[0]} {g[1]} [{','.join(str(o) for o in g[2])}]"
+            ctx.count("eval_gcc_layout")
+            if gs != spec:
+                raise common.BrokenCheck(f"Spec.CLayout disagrees with gcc on {case['c']}: spec {spec}, gcc {gs}")
+    ctx.sample({"layout": L.lty_proto(types[4]), "impl": results[0]["rows"][4] if results[0]["status"] == "ok" else results[0]["msg"],
+                "spec": rep[9]})
+
+
+def sum_sizes(t):
+    """sum of the scalar sizes (a layout is non-trivial when padding exists, i.e. size differs from this sum)"""
+    k = t[0]
+    if k == "P":
+        return {"char": 1, "uchar": 1, "short": 2, "ushort": 2, "int": 4, "uint": 4, "float": 4}.get(t[1], 8)
+    if k == "A":
+        return t[1] * sum_sizes(t[2])
+    if k == "S":
+        return sum(sum_sizes(x) for x in t[1])
+    return max([sum_sizes(x) for x in t[1]] or [0])
+
+
+# ----------------------------------------------------------------------------------------------
+def validate_spec_with_gcc(ctx, cases, replies, slots):
+    """thorough tier: gcc 12 (-fsanitize=undefined) as the oracle of Spec.CExpr on the generated expressions:
+    same type (via _Generic), same value wherever the specification defines one, and the sanitizer reports no
+    undefined behaviour there.  A disagreement means the SPECIFICATION is wrong: broken check, never a verdict."""
+    pool = [(i, c) for i, c in enumerate(cases) if replies[slots[i]][3:] != "none"]
+    ctx.rng.shuffle(pool)
+    chosen = [x for x in pool if x[1]["kind"] == "corpus"] + [x for x in pool if x[1]["kind"] == "single"][:700] + \
+             [x for x in pool if x[1]["kind"] == "random"][:900]
+    per = 150
+    for k in range(0, len(chosen), per):
+        chunk = chosen[k:k + per]
+        gc = [("llong", c["params"], c["tree"], c["argvs"][:6]) for _, c in chunk]
+        out, err = L.gcc_values(gc)
+        if out is None:
+            raise common.BrokenCheck("gcc rejected the generated program: " + err)
+        for (i, c), (tname, vals) in zip(chunk, out):
+            stype = replies[slots[i]][3:]
+            ctx.count("eval_gcc_type")
+            if tname != stype:
+                raise common.BrokenCheck(f"Spec.CExpr.typeOf disagrees with gcc on `{L.render_c(c['tree'])}` ({decl_text(c)}): "
+                                         f"spec {stype}, gcc {tname}")
+            for j, gv in enumerate(vals):
+                sv = replies[slots[i] + 3 + 2 * j][3:]
+                if sv == "none":
+                    continue
+                ctx.count("eval_gcc_value")
+                want = L.wrap("llong", int(sv))
+                if gv == "UB":
+                    raise common.BrokenCheck(f"Spec.CExpr defines `{L.render_c(c['tree'])}` args={c['argvs'][j]} = {sv} but gcc's "
+                                             "sanitizer reports undefined behaviour")
+                if gv != want:
+                    raise common.BrokenCheck(f"Spec.CExpr.eval disagrees with gcc on `{L.render_c(c['tree'])}` ({decl_text(c)}) "
+                                             f"args={c['argvs'][j]}: spec {want}, gcc {gv}")
+
+
+def replay(ctx, rp):
+    check(ctx)
